@@ -75,4 +75,6 @@ def jobs(pid, tier):
         return [seq('C10')]
     if pid == 'C09':
         return [seq('C09')]
+    if pid == 'C12':
+        return [seq('C12')]
     return []
